@@ -13,7 +13,38 @@ SPEC = {'append', 'extend', 'append_circuit', 'iadd', 'insert', 'insert_circuit'
         'clear', 'compress', 'copy', 'noop'}
 
 
+class HistoryTimeout(BaseException):
+    """raised by the watchdog: a call (or reading the circuit) did not return"""
+
+
+def _alarm(signum, frame):
+    raise HistoryTimeout()
+
+
+HISTORY_TIMEOUT = 90   # seconds per history (a history normally takes well under a second)
+
+
 def run_history(args):
+    """Run one random history under a watchdog: a call that never returns is a finding, not a hung check."""
+    import signal
+    state = dict(steps=[], findings=[], hist=[], last=None, seed=args[0], n=0, rads=())
+    old = signal.signal(signal.SIGALRM, _alarm)
+    signal.setitimer(signal.ITIMER_REAL, HISTORY_TIMEOUT)
+    try:
+        return _run_history(args, state)
+    except HistoryTimeout:
+        last = state['last']
+        if last is not None:
+            state['findings'].append(dict(kind='hang', step=max(0, len(state['steps']) - 1), call=last[1], pre=last[0],
+                                          detail=f'no return within {HISTORY_TIMEOUT}s'))
+        return dict(seed=state['seed'], n=state['n'], rads=state['rads'], steps=state['steps'],
+                    findings=state['findings'], hist=state['hist'][:len(state['steps'])])
+    finally:
+        signal.setitimer(signal.ITIMER_REAL, 0)
+        signal.signal(signal.SIGALRM, old)
+
+
+def _run_history(args, state):
     """Run one random history on the implementation.  Returns a dict with the model
     script, the implementation lines and the oracle findings."""
     seed, max_len, want = args
@@ -21,9 +52,10 @@ def run_history(args):
     n = rng.randint(1, 6)
     rads = tuple(rng.choice([2, 2, 2, 3]) for _ in range(n))
     c = Circuit(n, list(rads))
-    steps = []
-    findings = []
-    hist = []
+    steps = state['steps']
+    findings = state['findings']
+    hist = state['hist']
+    state['n'], state['rads'] = n, rads
     last = None
     for step in range(rng.randint(1, max_len)):
         try:
@@ -36,6 +68,7 @@ def run_history(args):
             break
         pre = cc.snap(c)
         last = (pre, call)
+        state['last'] = last
         out = cc.apply_impl(c, call)
         post = cc.snap(c)
         hist.append(call)
@@ -59,6 +92,9 @@ def run_history(args):
                     if not cc.grouped_ok(exp, post):
                         findings.append(dict(kind='order', step=step, call=call, pre=pre, post=post,
                                              expected_timelines=cc.TL(exp), observed_timelines=cc.TL(post)))
+                if call[0] == 'fold' and cc.region_verdict(pre, call[1]) != 'ok':
+                    findings.append(dict(kind='fold_accepted_invalid_region', step=step, call=call, pre=pre, post=post,
+                                         detail=cc.region_verdict(pre, call[1])))
                 if call[0] in STRUCT_ONLY or call[0] == 'unfold':
                     if cc.UTL(pre) != cc.UTL(post):
                         findings.append(dict(kind='structure_only_changed_program', step=step, call=call, pre=pre, post=post))
